@@ -312,7 +312,8 @@ func IntersectionBy[T comparable](fn func(T) T, params ...[]T) []T {
 
 	for i := 0; i < len(params[0]); i++ {
 		item := params[0][i]
-		if Contains(result, fn(item)) {
+		// Skip the item if an element with the same image has been kept already.
+		if Some(result, func(v T) bool { return fn(v) == fn(item) }) {
 			continue
 		}
 		var j int
